@@ -804,7 +804,12 @@ impl RLN {
         }
         let proof = ArkProof::deserialize_compressed(&mut Cursor::new(&input_byte[..128]))?;
 
-        let (proof_values, _) = deserialize_proof_values(&input_byte[128..]);
+        let (proof_values, read) = deserialize_proof_values(&input_byte[128..]);
+        // Each public value has exactly one accepted encoding: a value at or above the field order
+        // would otherwise be silently reduced and accepted as an alias
+        if serialize_proof_values(&proof_values) != input_byte[128..128 + read] {
+            return Err(Report::msg("non-canonical encoding of proof values"));
+        }
 
         let verified = verify_proof(&self.verification_key, &proof, &proof_values)?;
 
@@ -969,6 +974,11 @@ impl RLN {
             ArkProof::deserialize_compressed(&mut Cursor::new(&serialized[..128].to_vec()))?;
         all_read += 128;
         let (proof_values, read) = deserialize_proof_values(&serialized[all_read..]);
+        // Each public value has exactly one accepted encoding: a value at or above the field order
+        // would otherwise be silently reduced and accepted as an alias
+        if serialize_proof_values(&proof_values) != serialized[all_read..all_read + read] {
+            return Err(Report::msg("non-canonical encoding of proof values"));
+        }
         all_read += read;
 
         let signal_len = usize::try_from(u64::from_le_bytes(
@@ -1052,6 +1062,11 @@ impl RLN {
             ArkProof::deserialize_compressed(&mut Cursor::new(&serialized[..128].to_vec()))?;
         all_read += 128;
         let (proof_values, read) = deserialize_proof_values(&serialized[all_read..]);
+        // Each public value has exactly one accepted encoding: a value at or above the field order
+        // would otherwise be silently reduced and accepted as an alias
+        if serialize_proof_values(&proof_values) != serialized[all_read..all_read + read] {
+            return Err(Report::msg("non-canonical encoding of proof values"));
+        }
         all_read += read;
 
         let signal_len = usize::try_from(u64::from_le_bytes(
